@@ -133,6 +133,14 @@ def pykey(j):
         return ("num", float(j["i"])) if abs(j["i"]) < 2 ** 53 else ("int", j["i"])
     if "f" in j:
         return ("num", float(j["f"]))
+    if "l" in j or "v" in j:
+        # lists and vectors with equal elements are equal (and, since the repair of F-05a, hash alike):
+        # one set cannot hold both, nor one map have both as keys
+        return ("seq", tuple(pykey(x) for x in (j.get("l") if "l" in j else j["v"])))
+    if "set" in j:
+        return ("set", frozenset(pykey(x) for x in j["set"]))
+    if "m" in j:
+        return ("map", frozenset((pykey(k), pykey(v)) for k, v in j["m"]))
     return ("other", repr(j))
 
 
